@@ -3039,6 +3039,11 @@ PPL::Grid::wrap_assign(const Variables_Set& vars,
         // `x' takes a continuum of values: if overflow wraps, each of
         // them may wrap to a value modulo the `wrap_frequency'.
         if (o == OVERFLOW_WRAPS) {
+          // The integrality congruences added for the previous variables
+          // may have emptied the grid: a parameter cannot be added then.
+          if (is_empty()) {
+            return;
+          }
           add_grid_generator(parameter(wrap_frequency * x));
         }
         continue;
@@ -3098,6 +3103,11 @@ PPL::Grid::wrap_assign(const Variables_Set& vars,
         // value `v_n / v_d' is not one of the integral values of `x':
         // wrapping moves `x' alone, which on a relational grid is not
         // a translation of the grid into itself.)
+        // The integrality congruences added so far may have emptied the
+        // grid: a parameter cannot be added then.
+        if (is_empty()) {
+          return;
+        }
         add_grid_generator(parameter(wrap_frequency * x));
       }
       else if (v_d == 1) {
